@@ -554,3 +554,28 @@ def nt_token_table(ctx, clause):
                       "statement `%s` -> %d tokens as in the document" % (line, len(want)) if ok else
                       "statement `%s`: expected tokens %s, code gives %s" % (line, want, outs)))
     return obs
+
+
+# ------------------------------------------------------------------------- bare numeric tokens
+XSD = "http://www.w3.org/2001/XMLSchema#"
+NUM_ROWS = [("5", XSD + "integer"), ("-5", XSD + "integer"), ("+7", XSD + "integer"), ("0", XSD + "integer"),
+            ("2.5", XSD + "float"), ("-0.5", XSD + "float"), ("1e-3", XSD + "float")]
+
+
+def numeric_token_table(ctx, clause):
+    """Bare numbers (streaming Turtle / TSV readers, allow_untyped_numbers): sign and magnitude do not change the kind of
+    number - a token with an integer lexical form is an integer whatever its sign, a token with a fraction or a negative
+    exponent is not."""
+    f = ctx.p.func("shexer.utils.triple_yielders:tune_token")
+    obs = []
+    for tok, want in NUM_ROWS:
+        ev = Evaluator(ctx, max_depth=8)
+        outs = ev.outcomes(f, {"a_token": tok, "allow_untyped_numbers": True})
+        got = None
+        if len(outs) == 1 and outs[0][0] == "return" and isinstance(outs[0][1], tuple) and outs[0][1][:2] == ("new", "Literal"):
+            got = dict(outs[0][1][3]).get("elem_type")
+        ok = got == want
+        obs.append(Ob(clause, "R-TABLE", "R-TABLE|bare-number|%s" % tok, f.loc(), ok,
+                      "bare token %s -> %s" % (tok, want.split("#")[1]) if ok else
+                      "bare token %s: expected %s, code gives %s" % (tok, want, got if got else outs)))
+    return obs
